@@ -9,8 +9,8 @@ RULE = ("random histories over 4 evbuffers of 1-200 chains (copied, referenced, 
         "scripted faults and real transfers); distinct = hash of the executed op trace")
 
 STEPS = [
-    dict(flavor="asan", harness="h_evbufio", args=["--mode", "sockio", "--n1", "0"], cases=dict(quick=900, thorough=40000)),
-    dict(flavor="asan", harness="h_evbufio", args=["--mode", "sockio", "--n1", "1"], cases=dict(quick=200, thorough=8000), seed_off=101),
+    dict(flavor="asan", harness="h_evbufio", args=["--mode", "sockio", "--n1", "0"], cases=dict(quick=650, thorough=6500)),
+    dict(flavor="asan", harness="h_evbufio", args=["--mode", "sockio", "--n1", "1"], cases=dict(quick=150, thorough=1500), seed_off=101),
 ]
 REQUIRED = ["op_read", "op_write", "reads_ok", "reads_failed", "reads_returned_0", "writes_ok", "writes_failed", "writes_returned_0",
             "short_reads_seen", "short_writes_seen", "read_errors_seen", "write_errors_seen", "read_eof_seen",
@@ -20,7 +20,7 @@ REQUIRED = ["op_read", "op_write", "reads_ok", "reads_failed", "reads_returned_0
 
 REG = dict(
     category="fault_enumeration",
-    text="Runtime monitor with scripted syscall results: ~1100 (quick) / ~48000 (thorough) histories, each with tens of "
+    text="Runtime monitor with scripted syscall results: ~800 (quick) / ~8000 (thorough) histories, each with tens of "
          "evbuffer_read/evbuffer_write(_atmost) calls on real socketpairs/pipes whose read/readv/write/writev/sendfile/ioctl(FIONREAD) "
          "are wrapped; oracle: return value == bytes the kernel reported, appended bytes == next bytes of the far end's stream, request "
          "size <= howmuch and <= length, removed prefix == accepted count == bytes the far end received, buffer (length, contents, chain "
